@@ -1,9 +1,11 @@
 // instrument rewrites a scratch copy of the repository so that the simulator owns the
 // nondeterminism the properties depend on (DESIGN.md §3):
-//   R1 wall clock:   time.Now/Since/Until        -> verifrt.Now/Since/Until
-//   R2 map order:    for k, v := range <map>     -> iteration over verifrt.Keys(m)
-//   R3 fuel:         verifrt.Tick(site) at the top of every loop body
-//   R4 globals:      written package-level vars  -> verifrt.RegisterGlobal(print, reset)
+//
+//	R1 wall clock:   time.Now/Since/Until        -> verifrt.Now/Since/Until
+//	R2 map order:    for k, v := range <map>     -> iteration over verifrt.Keys(m)
+//	R3 fuel:         verifrt.Tick(site) at the top of every loop body
+//	R4 globals:      written package-level vars  -> verifrt.RegisterGlobal(print, reset)
+//
 // Only non-generated, non-test files under x/ and app/ are rewritten.
 package main
 
@@ -28,15 +30,15 @@ import (
 const rtPath = "github.com/SaoNetwork/sao/verifrt"
 
 type report struct {
-	Packages     int      `json:"packages"`
-	Files        int      `json:"files_rewritten"`
-	ClockSites   []string `json:"clock_sites"`
-	MapSites     []string `json:"map_range_sites"`
-	MapSkipped   []string `json:"map_range_skipped"`
-	Loops        int      `json:"loops_ticked"`
-	Globals      []string `json:"globals_registered"`
-	GoStmts      []string `json:"go_statements"`
-	RandSites    []string `json:"rand_or_env_sites"`
+	Packages   int      `json:"packages"`
+	Files      int      `json:"files_rewritten"`
+	ClockSites []string `json:"clock_sites"`
+	MapSites   []string `json:"map_range_sites"`
+	MapSkipped []string `json:"map_range_skipped"`
+	Loops      int      `json:"loops_ticked"`
+	Globals    []string `json:"globals_registered"`
+	GoStmts    []string `json:"go_statements"`
+	RandSites  []string `json:"rand_or_env_sites"`
 }
 
 func skipFile(name string) bool {
